@@ -195,6 +195,46 @@ def run_shard(args):
                 elif res.files_after["test_a.py"] != res.files_before["test_a.py"] and not (op == "getitem" and "snapshot({})['k']" in res.files_after["test_a.py"].decode()):
                     # (an empty sub-snapshot dict `{}` may be created: the rejected value itself is not recorded)
                     out["violations"].append({"kind": "unequal-deepcopy-value-written", "detail": {"class": name, "op": op, "F": list(F), "new": res.files_after["test_a.py"].decode()[-300:]}, "witness": wit, "finding": None})
+    # ---- values that cannot be deep-copied at all (deepcopy raises): the comparison may raise and record nothing, but a
+    # fallback to the live object would let a later mutation leak into the file (seeded round 6)
+    UNCOPYABLE = (
+        "\nclass Uncopyable:\n    def __init__(self, items): self.items = items\n"
+        "    def __deepcopy__(self, memo): raise %s\n"
+        "    def __eq__(self, other): return isinstance(other, Uncopyable) and other.items == self.items\n"
+        "    def __le__(self, other): return isinstance(other, Uncopyable) and self.items <= other.items\n"
+        "    def __ge__(self, other): return isinstance(other, Uncopyable) and self.items >= other.items\n"
+        "    def __hash__(self): return 7\n"
+        "    def __repr__(self): return f'Uncopyable({self.items!r})'\n"
+    )
+    ucase = 0
+    for exc in ("TypeError(\"cannot pickle '_thread.lock' object\")", "copy.Error('no')", "RecursionError('deep')"):
+        for ctor in ("Uncopyable([1])", "[0, Uncopyable([1])]", "(Uncopyable([1]), 'x')", "{'k': Uncopyable([1])}"):
+            for op, cmp in (("eq", "snapshot() == v"), ("req", "v == snapshot()"), ("in", "v in snapshot()"), ("getitem", "snapshot()['k'] == v"), ("le", "v <= snapshot()"), ("fix", "snapshot(5) == v"), ("in-existing", "v in snapshot([1])")):
+                if op == "le" and ctor != "Uncopyable([1])":
+                    continue
+                for F in (("create", "fix"), ("create", "fix", "trim", "update")):
+                    ucase += 1
+                    if ucase % args.nshards != args.shard:
+                        continue
+                    src = header + UNCOPYABLE % exc + f"\ndef test_a():\n    v = {ctor}\n    u = v if isinstance(v, Uncopyable) else (v['k'] if isinstance(v, dict) else [x for x in v if isinstance(x, Uncopyable)][0])\n    rec(0, lambda: {cmp})\n    u.items.append('late')\n    rec(0, lambda: {cmp})\n    u.items.append('later')\n"
+                    res = inproc.run({"test_a.py": src}, F)
+                    out["evaluations"] += 1
+                    C["uncopyable_cases"] = C.get("uncopyable_cases", 0) + 1
+                    out["signatures"].add(f"uncopyable/{exc.split('(')[0]}/{ctor}/{op}/{'+'.join(F)}")
+                    wit = {"files": {"test_a.py": src}, "flags": list(F)}
+                    if res.exec_exc:
+                        out["inconclusive"].append(f"module failed: {res.exec_exc}")
+                        continue
+                    if res.crashed():
+                        continue  # C18's subject; nothing was written
+                    new_src = res.files_after["test_a.py"].decode()
+                    try:
+                        new_args, _ = program.outer_snapshot_args(new_src)
+                    except SyntaxError as e:
+                        out["violations"].append({"kind": "unparsable", "detail": {"error": str(e), "new": new_src[-600:]}, "witness": wit, "finding": None})
+                        continue
+                    if any(a and "late" in a for a in new_args):
+                        out["violations"].append({"kind": "recorded-value-is-not-the-value-at-comparison-time", "detail": {"case": "value that cannot be deep-copied", "ctor": ctor, "op": op, "F": list(F), "written": new_args, "events": res.logs.get("test_a.py", [])[:4]}, "witness": wit, "finding": None})
     # ---- real sessions: snapshots created during collection (module level, parametrize arguments) and compared inside
     # ordinary, parametrised and xfail-marked tests (which run in a switched-off local state); the object is mutated afterwards
     from .. import session
